@@ -189,18 +189,14 @@ void instantiate_everything(MPI_Comm comm, std::istream& in, std::ostream& out)
     auto ch = dd(engine);
 
     auto ru = hep::random_number_usage<T, E>();
-    auto db = hep::discard_before(10, 1, 3);
-    auto da = hep::discard_after(10, 3, 1, 3);
 
     auto dt1 = hep::mpi_datatype<T>();
     auto dt2 = hep::mpi_datatype<std::size_t>();
 
-    std::vector<T> buffer;
-    auto ar = hep::allreduce_result(comm, r2.results().back(), buffer, std::vector<T>(), 1000);
 
     (void) a1; (void) a2; (void) a3; (void) a4; (void) c1; (void) c2; (void) cr; (void) mx;
-    (void) my; (void) md; (void) lr; (void) rp; (void) ch; (void) ru; (void) db; (void) da;
-    (void) dt1; (void) dt2; (void) ar; (void) r1; (void) r3; (void) r4; (void) r6; (void) s1;
+    (void) my; (void) md; (void) lr; (void) rp; (void) ch; (void) ru;
+    (void) dt1; (void) dt2; (void) r1; (void) r3; (void) r4; (void) r6; (void) s1;
     (void) s2; (void) s3; (void) s4; (void) s5; (void) s6; (void) pc2; (void) vc2; (void) vc3;
     (void) mc2; (void) mc3;
 }
